@@ -1777,3 +1777,303 @@ RS.explanation += (' Added after fixes 1860a4a / 6f410ec / 4fe2991 / f728452: ev
                    'for a name tested non-empty and free of `=` (R13); VariableSet::init, which runs after the environment import, assigns a '
                    'default only to a variable without a value, except IFS and OPTIND which it always assigns (R14); production code never '
                    'calls std::env::vars, whose iterator panics on non-Unicode data - the import reads std::env::vars_os (R15).')
+
+
+# ------------------------------------------------------------------ R16 / R17 (seed C16-s8: cached index of the topmost regular context)
+ITER = V + 'Iter'
+CMP_OPS = ('Lt', 'Le', 'Gt', 'Ge', 'Eq', 'Ne')
+# the state of the variable store, field by field: what each field holds and why nothing else is needed
+STORE_FIELDS = {
+    VSET: {
+        'all_variables': 'name -> the stack of (variable, context index) entries, ascending by context index; the only place variables live',
+        'contexts': 'the context stack itself (kind of each context + positional parameters); every scope boundary is computed from it when needed',
+    },
+    VIC: {
+        'variable': 'the variable',
+        'context_index': 'the position in VariableSet::contexts of the context that owns the variable; valid while that context exists '
+                         '(pop_context_impl removes the entries of the popped context)',
+    },
+    ITER: {
+        'inner': 'borrow of all_variables: while the iterator lives the set (and its context stack) cannot change',
+        'min_context_index': 'the scope boundary computed by VariableSet::iter when the iterator was made; cannot go stale under the borrow above',
+    },
+}
+
+
+class _Provenance:
+    """Backward data slice of an integer value over the MIR of the workspace: follows copies, arithmetic, casts, (re)borrows, tuple
+    fields and enum payloads through EVERY definition of a local, descends into workspace callees that have a body (their return
+    place, parameters mapped back to the call's operands), treats other calls as depending on all their arguments, maps a closure's
+    captured variable to the operand captured where the closure is built, and a private function's parameter to the operands of all
+    its callers. The slice stops at fields of the store's own types: those are the leaves the rule judges.
+      leaves: ('const',) | ('vset', field) | ('entry',) = VariableInContext::context_index | ('iter-min',) |
+              ('field', adt, field) | ('param', fn, name, type) | ('closure-param', fn) | ('unknown', what)"""
+
+    def __init__(self, F):
+        self.F = F
+        self._du = {}
+        self._parents = {}
+        self._callers = {}
+        self.leaves = set()
+        self.via = set()
+        self.seen = set()
+
+    def du(self, body):
+        d = self._du.get(id(body))
+        if d is None:
+            d = self._du[id(body)] = Q.DefUse(body)
+        return d
+
+    def parents(self, closure_fn, root):
+        """[(parent body, closure aggregate rvalue)] for a closure body"""
+        k = closure_fn
+        if k not in self._parents:
+            out = []
+            for pb in self.F.by_root.get(root) or []:
+                for _, _, s in pb.stmts():
+                    if s['k'] == 'assign' and s['rv']['k'] == 'agg' and s['rv'].get('ak') == 'closure' and s['rv'].get('def') == closure_fn:
+                        out.append((pb, s['rv']))
+            self._parents[k] = out
+        return self._parents[k]
+
+    def callers(self, fn):
+        if fn not in self._callers:
+            self._callers[fn] = self.F.callers_of(lambda names, t, fn=fn: t['f'].get('def') == fn or (not t['f'].get('def') and fn in names))
+        return self._callers[fn]
+
+    # ctx = None | (caller body, call terminator, caller ctx): where the parameters of `body` come from
+    def operand(self, body, o, ctx, depth):
+        pl = Q.operand_place(o)
+        if pl is None:
+            self.leaves.add(('const',))
+            return
+        self.place(body, pl, ctx, depth)
+
+    def place(self, body, pl, ctx, depth):
+        proj = pl.get('p') or []
+        fields = [e for e in proj if isinstance(e, dict) and 'f' in e and e.get('adt')]
+        for e in fields:
+            if e['adt'] == VSET:
+                self.leaves.add(('vset', str(e['f'])))
+                return
+            if e['adt'] == VIC:
+                self.leaves.add(('entry',) if e['f'] == 'context_index' else ('field', VIC, str(e['f'])))
+                return
+            if e['adt'] == ITER:
+                self.leaves.add(('iter-min',) if e['f'] == 'min_context_index' else ('field', ITER, str(e['f'])))
+                return
+        for e in fields:
+            if e['adt'] == body.fn and pl['l'] == 1 and str(e['f']).isdigit():       # captured variable of this closure
+                ps = self.parents(body.fn, body.root)
+                if not ps:
+                    self.leaves.add(('unknown', 'closure %s is built nowhere' % body.fn))
+                for pb, rv in ps:
+                    n = int(e['f'])
+                    if n < len(rv['ops']):
+                        # the parent is analysed as a function of its own (its parameters: see local())
+                        self.operand(pb, rv['ops'][n], None, depth)
+                    else:
+                        self.leaves.add(('unknown', 'capture %d of %s' % (n, body.fn)))
+                return
+        for e in fields:
+            a = self.F.adts.get(e['adt'])
+            if a is not None and str(a.get('crate', '')).startswith('yash'):
+                self.leaves.add(('field', e['adt'], str(e['f'])))
+                return
+        for l in Q.place_locals(pl):
+            self.local(body, l, ctx, depth)
+
+    def local(self, body, l, ctx, depth):
+        key = (body.fn, id(body), l, id(ctx[1]) if ctx else None)
+        if key in self.seen:
+            return
+        self.seen.add(key)
+        du = self.du(body)
+        defs = du.defs.get(l, [])
+        if 1 <= l <= body.argc:
+            self.param(body, l, ctx, depth)
+        elif not defs:
+            self.leaves.add(('unknown', 'local _%d of %s has no definition' % (l, body.fn)))
+        for blk, idx, node in defs:
+            if idx == 't':
+                self.call(body, node, ctx, depth)
+                continue
+            if node['k'] != 'assign':
+                continue
+            rv = node['rv']
+            k = rv['k']
+            if k in ('use', 'binop', 'unop', 'cast', 'agg', 'repeat'):
+                for o in Q.rvalue_operands(rv):
+                    self.operand(body, o, ctx, depth)
+            elif k in ('ref', 'rawptr', 'discr', 'len'):
+                if rv.get('pl') is not None:
+                    self.place(body, rv['pl'], ctx, depth)
+            else:
+                self.leaves.add(('unknown', 'rvalue kind %s' % k))
+
+    def param(self, body, l, ctx, depth):
+        if ctx is not None:
+            cbody, t, cctx = ctx
+            if l - 1 < len(t['a']):
+                self.operand(cbody, t['a'][l - 1], cctx, depth)
+            return
+        is_closure = '{closure' in body.fn.rsplit('::', 1)[-1]
+        if is_closure:
+            if l >= 2:
+                self.leaves.add(('closure-param', body.fn))
+            return
+        sig = self.F.fns.get(body.fn) or {}
+        if sig.get('vis') != 'pub' and not body.fn.startswith('<'):
+            cs = self.callers(body.fn)
+            if cs and depth > 0:
+                for cb, blk, t in cs:
+                    if l - 1 < len(t['a']):
+                        self.operand(cb, t['a'][l - 1], None, depth - 1)
+                return
+        self.leaves.add(('param', body.fn, body.local_name(l) or '_%d' % l, str(body.locals[l].get('ty', ''))))
+
+    def call(self, body, t, ctx, depth):
+        callee = t['f'].get('def')
+        cb = self.F.bodies.get(callee) if callee else None
+        self.via.add(pp.callee(t) or '?')
+        if cb is not None and not cb.d.get('coroutine') and depth > 0 and len(t['a']) == cb.argc and cb.fn != body.fn:
+            self.local(cb, 0, (body, t, ctx), depth - 1)
+            return
+        for a in t['a']:
+            self.operand(body, a, ctx, depth)
+
+
+def _store_bodies(F):
+    return [b for fn, b in sorted(F.bodies.items()) if b.crate == 'yash_env' and 'yash_env::variable::' in fn]
+
+
+def _boundary_sinks(F):
+    """Where a context index is put to use against the variables: [(body, node, what, operand)]
+       compare: the operand compared with an entry's context_index; new-entry: the context_index given to a new VariableInContext;
+       iterator: the min_context_index given to a new Iter."""
+    out = []
+    for b in _store_bodies(F):
+        du = None
+        for blk, j, s in b.stmts():
+            if s['k'] != 'assign':
+                continue
+            rv = s['rv']
+            if rv['k'] == 'binop' and rv['op'] in CMP_OPS and 'usize' in (str(rv.get('ta')), str(rv.get('tb'))):
+                du = du or Q.DefUse(b)
+                ent = []
+                for x in ('a', 'b'):
+                    pl = _trace_place(du, rv[x]) if Q.operand_place(rv[x]) is not None else None
+                    ent.append(pl is not None and _projects(pl, VIC, 'context_index'))
+                if ent[0] != ent[1]:
+                    out.append((b, s, 'compare', rv['b'] if ent[0] else rv['a']))
+                elif ent[0]:
+                    out.append((b, s, 'entry-vs-entry', None))
+            elif rv['k'] == 'agg' and rv.get('ak') == 'adt' and rv.get('adt') in (VIC, ITER):
+                want = 'context_index' if rv['adt'] == VIC else 'min_context_index'
+                names = [str(f) for f in rv.get('fields') or []]
+                if want in names and names.index(want) < len(rv['ops']):
+                    out.append((b, s, 'new-entry' if rv['adt'] == VIC else 'iterator', rv['ops'][names.index(want)]))
+                else:
+                    out.append((b, s, 'unreadable-aggregate', None))
+    return out
+
+
+@RS.rule('C16.R16', 'K-TAINT', 'the context a scope resolves to is computed from the context stack when it is needed: every value that is '
+         'compared with a variable\'s context index, given to a new entry as its context, or given to an iterator as its lower bound derives '
+         '(through helpers, closures and arithmetic) only from constants, VariableSet::contexts and entries\' own context indices - never from '
+         'another stored field of the set, which every push and pop would have to keep in step')
+def r16(cx):
+    F = cx.F
+    cx.require(VSET in F.adts and VIC in F.adts and ITER in F.adts, 'VariableSet / VariableInContext / Iter not found (renamed?)')
+    vset_fields = {f['name'] for v in F.adts[VSET]['variants'] for f in v['fields']}
+    cx.require('contexts' in vset_fields, 'VariableSet has no field `contexts` any more: the context stack moved (review how scopes are resolved)')
+    sinks = _boundary_sinks(F)
+    # Iter::min_context_index is a leaf the rule accepts: it must only ever be filled when the iterator is built (a sink below)
+    iter_min_writes = []
+    for b in _store_bodies(F):
+        for blk, j, s, kind, f in Q.field_writes(b, ITER, 'min_context_index'):
+            iter_min_writes.append('%s at %s' % (b.fn, b.loc(s)))
+    unclear = []
+    n_from_stack = 0
+    roots_from_stack = set()
+    reported = set()
+    for b, s, what, o in sinks:
+        cx.fn(b.fn)
+        if o is None:
+            if what == 'unreadable-aggregate':
+                unclear.append('%s: the aggregate at %s does not list the context-index field' % (b.fn, b.loc(s)))
+            cx.site('%s: %s at %s (nothing to resolve)' % (b.fn, what, b.loc(s)))
+            continue
+        pv = _Provenance(F)
+        pv.operand(b, o, None, 6)
+        leaves = pv.leaves
+        stored = sorted(l[1] for l in leaves if l[0] == 'vset' and l[1] != 'contexts')
+        from_stack = ('vset', 'contexts') in leaves
+        if from_stack:
+            n_from_stack += 1
+            roots_from_stack.add(b.root)
+        shown = sorted({'constant' if l[0] == 'const' else 'VariableSet::%s' % l[1] if l[0] == 'vset' else 'an entry\'s context_index' if l[0] == 'entry'
+                        else 'Iter::min_context_index' if l[0] == 'iter-min' else '%s of %s' % (l[0], '/'.join(str(x) for x in l[1:])) for l in leaves})
+        cx.site('%s: %s at %s; the context index derives from: %s' % (b.fn, what, b.loc(s), ', '.join(shown) or '-'))
+        for f in stored:
+            if (b.root, f) in reported:
+                continue
+            reported.add((b.root, f))
+            cx.violation(b.root, 'stored-scope-boundary:%s' % f, 'the context index used here (%s) is read from the stored field VariableSet::%s '
+                         'instead of being computed from the context stack: it is right only while every push and pop of a context keeps the '
+                         'field in step with `contexts` in every history. When it lags (e.g. after the function called in `command eval \'f; '
+                         'typeset v=1\'` returns: two volatile contexts lie under the popped regular one) Scope::Local resolves to a volatile '
+                         'context: the variable typeset declares lands in the built-in\'s temporary context and vanishes with it, and '
+                         'get_scoped / unset / iter use the wrong boundary' % (what, f), loc=b.loc(s))
+        for l in sorted(leaves, key=str):
+            if l[0] in ('const', 'entry') or l == ('vset', 'contexts') or (l[0] == 'vset' and l[1] in stored):
+                continue
+            if l[0] == 'iter-min' and not iter_min_writes:
+                continue
+            if l[0] == 'param' and _is_type(_strip_ref(l[3]), V + 'Scope'):
+                continue
+            unclear.append('%s: the context index at %s depends on %s' % (b.fn, b.loc(s), ' '.join(str(x) for x in l)))
+    cx.floor(len([1 for _, _, w, o in sinks if o is not None]), 8, 'uses of a context index against the variables (hand count: get_scoped filter, '
+             'get_or_new_impl 2 comparisons + 3 new entries, unset partition_point, iter, Iter::next, pop_context_impl retain)')
+    if not cx.violations:
+        # every Scope-taking accessor of the set must be among the functions whose boundary comes from the stack
+        scoped = sorted(fn for fn, sig in F.fns.items() if fn.startswith(VSET + '::') and fn in F.bodies and
+                        any(_is_type(_strip_ref(str(i)), V + 'Scope') for i in (sig.get('inputs') or [])))
+        cx.require(scoped, 'no method of VariableSet takes a Scope any more (API changed: review)')
+        wrappers = {fn for fn in scoped if any(pp.callee(t) in scoped for _, t in F.bodies[fn].calls())}
+        for fn in scoped:
+            ok = fn in roots_from_stack or fn in wrappers or (F.fns[fn].get('vis') != 'pub' and any(
+                cb.root in roots_from_stack or cb.root in scoped for cb, _, _ in F.callers_of(lambda names, t, fn=fn: fn in names)))
+            cx.site('%s takes a Scope; a context index it uses is computed from VariableSet::contexts: %s' % (fn, ok))
+            if not ok:
+                unclear.append('%s takes a Scope but no context index computed from `contexts` is used against the variables in it' % fn)
+        cx.require(not unclear, 'context-index uses this rule does not understand (review, then extend the rule): %s' % '; '.join(unclear[:6]))
+        cx.floor(n_from_stack, 6, 'context indices computed from VariableSet::contexts')
+
+
+@RS.rule('C16.R17', 'K-TYPE', 'the state of the variable store is exactly its reviewed fields: VariableSet = all_variables + contexts, '
+         'VariableInContext = variable + context_index, Iter = inner + min_context_index; a new field (a cache, a counter, a second stack) is '
+         'state that every history must keep consistent and is reported until reviewed')
+def r17(cx):
+    F = cx.F
+    for adt in sorted(STORE_FIELDS):
+        a = F.adt(adt)
+        cx.require(len(a['variants']) == 1 and a.get('kind') == 'Struct', '%s is no longer a struct' % adt)
+        have = [f['name'] for f in a['variants'][0]['fields']]
+        for f in have:
+            cx.cellcount(1)
+            why = STORE_FIELDS[adt].get(f)
+            cx.site('%s::%s : %s - %s' % (adt, f, next(x['ty'] for x in a['variants'][0]['fields'] if x['name'] == f), why or 'NOT REVIEWED'))
+            if why is None:
+                cx.violation(adt, 'unreviewed-field:%s' % f, 'the variable store has a field that is not part of its reviewed state (%s): whatever '
+                             'it holds must be kept consistent with the context stack and the per-name stacks by every push, pop, assignment '
+                             'and unset in every history (and by Clone / PartialEq / fork save-restore); the rules of this property reason only '
+                             'about %s. A cached scope boundary that lags behind the stack makes typeset / unset / get_scoped act on the wrong '
+                             'context' % (f, ', '.join(sorted(STORE_FIELDS[adt]))), loc='%s:%s' % (a.get('file'), a.get('line')))
+        for f in sorted(set(STORE_FIELDS[adt]) - set(have)):
+            cx.require(False, '%s::%s no longer exists: the representation of the store changed, review the rules of this property' % (adt, f))
+
+
+RS.explanation += (' Added after seed C16-s8: every context index that is compared with an entry\'s context_index, stored in a new entry or handed '
+                   'to Iter derives, across helpers / closures / arithmetic, only from constants, VariableSet::contexts and entries\' own indices - '
+                   'never from another stored field of the set (R16); VariableSet, VariableInContext and Iter have exactly their reviewed fields (R17).')
